@@ -319,18 +319,19 @@ async def scenario(loop, case):
         rec.push(int(t), "c", (k, kind, obj, inst, pid))
     for t, action in case.get("ev", []):
         rec.push(int(t), action, (0, None))
-    horizon = None
+    idle, seen = 0, -1
     while True:
         if rec.heap:
             t = rec.heap[0][0]
         else:
             if all(x.done() for x in rec.tasks) and all(x.done() for x in rec.user_close):
                 break
-            if horizon is None:
-                horizon = rec.now() + (REPS + 3) * TMO
-            t = horizon
-            if rec.now() >= horizon:
-                break
+            n_out = sum(len(b) for b in rec.buckets)
+            idle = idle + 1 if n_out == seen else 0
+            seen = n_out
+            if idle >= 2:
+                break               # nothing happened for two full timeouts: a request hangs
+            t = rec.now() + TMO + 1
         rec.wake = loop.create_future()
         h = loop.call_at(rec.t0 + t * TICK, lambda w=rec.wake: (not w.done()) and w.set_result(None))
         if t > rec.now():
@@ -657,6 +658,14 @@ def generate(rng, tier):
             r = ([[d_ack, "A"]] if d_ack is not None else []) + ([[d_ans, "M"]] if d_ans is not None else [])
             yield {"op": "dm scn", "proto": "udp", "calls": [[0, 1, "r", 11, 1, 52], [3, 2, "r", 11, 1, 52]],
                    "srv": [sorted(r, key=lambda x: x[0]), [[0, "A"], [0, "M"]] if d_ack != 0 else []]}
+    # F3b: the k-th transmission is the first to be acknowledged (k beyond the repetitions: never), with silence or
+    # error-status ACKs before it; one and two callers
+    for k in range(0, REPS + 3):
+        for quiet in ([], [[0, "E"]], [[TMO - 1, "E"]], [[5, "M"]]):
+            for ncall in (1, 2):
+                calls = [[0, 1, "r", 11, 1, 52], [7, 2, "w", 0, 1, 11]][:ncall]
+                yield {"op": "dm scn", "proto": "udp", "calls": calls,
+                       "srv": [quiet] * k + [[[0, "A"], [0, "M"]]] + [[]] * (REPS + 3)}
     # F4: random
     for _ in range(1500 if not thorough else 40000):
         proto = "udp" if rng.random() < 0.7 else "tcp"
